@@ -500,9 +500,11 @@ Fixpoint restore_dirs (pres : bool) (f : fsys) (dirs : list (path * N)) (seen : 
 (* extraction stops at the first error; effects of earlier entries stay (and the directories
    keep their creation mode); after the last entry the directory modes are restored *)
 Fixpoint extract (g : cfg) (pres : bool) (cwd : path) (dp : list name) (dirName : str) (f : fsys) (es : list entry)
-  (ts : list N) (dirs : list (path * N)) : fsys * bool :=
+  (ts : list N) (dirs : list (path * N)) (trunc : bool) : fsys * bool :=
   match es with
   | [] =>
+    if trunc then (f, false)   (* the tar stream breaks off here: error, directory modes not restored *)
+    else
     match restore_dirs pres f dirs [] with
     | Some f' => (f', true)
     | None => (f, false)
@@ -512,7 +514,7 @@ Fixpoint extract (g : cfg) (pres : bool) (cwd : path) (dp : list name) (dirName 
     | None => (f, false)
     | Some f' =>
       extract g pres cwd dp dirName f' r (tl ts)
-              (match dir_record dp dirName e with Some d => d :: dirs | None => dirs end)
+              (match dir_record dp dirName e with Some d => d :: dirs | None => dirs end) trunc
     end
   end.
 
@@ -521,9 +523,14 @@ Fixpoint extract (g : cfg) (pres : bool) (cwd : path) (dp : list name) (dirName 
 Inductive pushop :=
 | PBlob (title : str) (c : N)
 | PDir (title : str) (ts : list N) (es : list entry)    (* ts: header times of the entries *)
-| PManifest (layers : list (str * N)).   (* unnamed image manifest: titles and content tags of its layers *)
+| PManifest (layers : list (str * N))
+| PDirF (how : N) (title : str) (ts : list N) (es : list entry).
+  (* an archive that fails: how = 1 the gzip blob fails verification (nothing is unpacked),
+     2 the tar stream breaks off after the entries, 3 the digest of the uncompressed tar does not
+     match (everything is unpacked, then the push fails) *)   (* unnamed image manifest: titles and content tags of its layers *)
 
-Definition push_title (o : pushop) : str := match o with PBlob t _ => t | PDir t _ _ => t | PManifest _ => [] end.
+Definition push_title (o : pushop) : str :=
+  match o with PBlob t _ => t | PDir t _ _ => t | PManifest _ => [] | PDirF _ t _ _ => t end.
 
 (* absPath + resolveWritePath: raw components of the (absolute) target, or None = ErrPathTraversalDisallowed *)
 Definition write_path (g : cfg) (wd : path) (title : str) : option (list comp) :=
@@ -576,7 +583,7 @@ Definition push_blob (g : cfg) (wd : path) (s : store) (title : str) (w : N) (go
   end.
 
 Definition push_dir (g : cfg) (pres : bool) (wd cwd : path) (s : store) (title : str) (ts : list N) (es : list entry)
-  : store * bool :=
+  (how : N) : store * bool :=
   if existsb (str_eqb title) (st_names s) then (s, false) else
   match write_path g wd title with
   | None => (s, false)
@@ -585,7 +592,9 @@ Definition push_dir (g : cfg) (pres : bool) (wd cwd : path) (s : store) (title :
     match ensure_write_dir g wd (st_fs s) dp raw with
     | None => (s, false)
     | Some f1 =>
-      let '(f2, ok) := extract g pres cwd dp title f1 es ts [] in
+      if (how =? 1)%N then (mkStore f1 (st_names s) (st_d2p s), false) else
+      let '(f2, ok0) := extract g pres cwd dp title f1 es ts [] (how =? 2)%N in
+      let ok := ok0 && negb (how =? 3)%N in
       (mkStore f2 (if ok then title :: st_names s else st_names s) (st_d2p s), ok)
     end
   end.
@@ -654,7 +663,9 @@ Definition push (g : cfg) (pres : bool) (wd cwd : path) (s : store) (o : pushop)
     else (mkStore (st_fs s) (mk :: st_names s) (st_d2p s), true)
   | PBlob title c => push_blob g wd s title c (negb (c =? 0)%N)
   | PDir [] _ _ => (s, true)
-  | PDir title ts es => push_dir g pres wd cwd s title ts es
+  | PDir title ts es => push_dir g pres wd cwd s title ts es 0
+  | PDirF _ [] _ _ => (s, false)
+  | PDirF how title ts es => push_dir g pres wd cwd s title ts es how
   end.
 
 Fixpoint pushes (g : cfg) (pres : bool) (wd cwd : path) (s : store) (os : list pushop) : store * list bool :=
